@@ -20,10 +20,13 @@ def gen(ctx):
 
     def pick():
         k = rng.random()
-        if k < 0.4:
+        if k < 0.35:
             return rng.choice(U2)
-        if k < 0.7:
+        if k < 0.6:
             return rng.choice(U3)
+        if k < 0.75:
+            # distinct default values and annotations: plain inputs must give the same parameters
+            return random_sig(rng, 'abc', 3, meta=True)
         # stars named like ordinary parameters of other signatures
         return random_sig(rng, 'abcd', 4, star_names=(('args', 'kwargs'), ('a', 'b'), ('c', 'kwargs')))
     fz = id_of_name('z')
@@ -97,8 +100,9 @@ def examine(c, rc):
             out.append(('C15:malformed', '%s: %s' % (c.show(), wf)))
     if c.op in ('merge', 'embed', 'mask', 'forwards'):
         pl = run_one(c, False)
-        a = ('err', up[1]) if up[0] == 'err' else ('ok', tuple(describe_sig(up[1])['params']))
-        bb = ('err', pl[1]) if pl[0] == 'err' else ('ok', tuple(describe_sig(pl[1])['params']))
+        # name, kind, default, annotation (the upgraded wrappers necessarily differ)
+        a = ('err', up[1]) if up[0] == 'err' else ('ok', tuple(q[:4] for q in describe_sig(up[1])['params']))
+        bb = ('err', pl[1]) if pl[0] == 'err' else ('ok', tuple(q[:4] for q in describe_sig(pl[1])['params']))
         if a != bb:
             out.append(('C15:plain', '%s: plain inspect.Signature inputs give %s, upgraded inputs give %s' % (c.show(), bb, a)))
         if not pl[2]:
@@ -132,12 +136,74 @@ def run(ctx, rep):
         for key, what in examine(c, rc == 'T'):
             rep.violation(key, what, dict(c.data(), kind='examine', rc=(rc == 'T')))
     rep.coverage['outcome_histogram'] = hist
+    nret = retrieval_fallback(ctx, rep)
+    rep.coverage['retrieval_fallback_wrappers'] = nret
+    rep.evaluations += nret
     for c, m, i in tr[:5]:
         rep.sample({'case': c.show(), 'impl': show_sig(i[1]) if i[0] == 'ok' else i[1]})
 
 
+RET_SRC = '''def c1(%s):
+    return None
+def c2(%s):
+    return None
+def wrapper(flag, *args, **kwargs):
+    if flag:
+        return c1(*args, **kwargs)
+    return c2(*args, **kwargs)
+'''
+
+
+def retrieval_one(src):
+    """signature retrieval turns failures of the algebra into its fallback"""
+    import sigtools
+    import programs as PG
+    ns = PG.load_module(src, tag='c15')
+    try:
+        try:
+            with warnings.catch_warnings():
+                warnings.simplefilter('ignore')
+                sigtools.signature(ns['wrapper'])
+        except Exception as e:  # noqa: BLE001
+            return '%s: %s' % (type(e).__name__, str(e)[:120])
+        return None
+    finally:
+        PG.unload(ns)
+
+
+def retrieval_fallback(ctx, rep):
+    """wrappers forwarding to two callees on different branches, including callees that
+    use one name in different roles (the merge then fails in the final constructor
+    with a plain ValueError, or with IncompatibleSignatures): retrieval must fall back"""
+    import programs as PG
+    rng = ctx.rng('retrieval')
+    U = universe(2, ['x', 'y'])
+    n = 400 if ctx.quick else 5000
+    cnt = 0
+    for _ in range(n):
+        a = rng.choice(U)
+        if rng.random() < 0.6:
+            # same names, other order / other kinds: role-inconsistent on purpose
+            names = [q[0] for q in a if q[1] in ('PO', 'PK', 'KO')]
+            cands = [u for u in U if sorted(q[0] for q in u if q[1] in ('PO', 'PK', 'KO')) == sorted(names) and u != a]
+            b = rng.choice(cands) if cands else rng.choice(U)
+        else:
+            b = rng.choice(U)
+        src = RET_SRC % (PG.param_list_src(a), PG.param_list_src(b))
+        cnt += 1
+        bad = retrieval_one(src)
+        if bad:
+            rep.violation('C15:retrieval-fallback',
+                          'sigtools.signature(wrapper) raised %s instead of falling back\n%s' % (bad, src),
+                          {'kind': 'retrieval', 'source': src})
+    return cnt
+
+
 def replay(ctx, data):
     r = data['replay']
+    if r.get('kind') == 'retrieval':
+        bad = retrieval_one(r['source'])
+        return ('sigtools.signature(wrapper) raised %s' % bad) if bad else None
     c = case_from_data(r)
     res = examine(c, r.get('rc', False))
     return res[0][1] if res else None
